@@ -74,6 +74,12 @@ def cases(rng, tier, shard, nshards):
         c = {"kind": kind, "value": v, "good": good, "how": rng.choice(["set", "attr", "datatype"]),
              "carrier": rng.randrange(len(CARRIERS)), "vlevel": rng.choice([0, 1, 2, 3]),
              "tag": V.tagname(rng), "sibling": sib}
+        if good and sib is None and rng.random() < 0.2:
+            # the tag existed before with a value of another class and was removed (documented:
+            # delete(), or a value of None)
+            k2 = rng.choice([k for k in KINDS if k != kind])
+            c["removed_before"] = {"kind": k2, "value": V.py_value(rng, k2),
+                                   "by": rng.choice(["set-none", "attr-none", "delete"])}
         if rng.random() < 0.3:
             c["connected"] = rng.randrange(len(CONNECTED))
             c["post"] = rng.choice(["none", "rename", "group-line", "group-line", "reparse", "readd"])
@@ -271,6 +277,22 @@ def run(case, ctx):
             if sib.ok:
                 call(ctx, "set(tag) on a clone", sib.value.set, tag, sv)
                 ctx.count("sibling_assignments")
+    if case.get("removed_before"):
+        rb = case["removed_before"]
+        pv = materialise(rb["kind"], rb["value"])
+        if pv is not None:
+            r0 = call(ctx, "set(tag) earlier value", line.set, tag, pv)
+            if r0.ok:
+                if rb["by"] == "delete":
+                    r1 = call(ctx, "delete(tag)", line.delete, tag)
+                elif rb["by"] == "set-none":
+                    r1 = call(ctx, "set(tag, None)", line.set, tag, None)
+                else:
+                    r1 = call(ctx, "tag = None", lambda: setattr(line, tag, None))
+                ctx.count("removed_then_assigned")
+                if not r1.ok or tag in line.tagnames or line.get(tag) is not None:
+                    ctx.violation("tag-not-removed/%s" % rb["by"], "%r after %s of %s" % (str(line), rb["by"], tag))
+                    return
     dt_forced = None
     how = case["how"]
     if kind == "char":
